@@ -59,9 +59,10 @@ fn finish(r: Runner, id: &str, nontrivial: bool) -> CaseResult {
 }
 
 /// `ops`: a random history with restarts; every oracle of run.rs is evaluated
-pub fn case_ops(scratch: &Path, meta: usize, id: &str, seed: u64, len: usize, pols: &[Pol]) -> CaseResult {
+pub fn case_ops(scratch: &Path, meta: usize, id: &str, seed: u64, len: usize, pols: &[Pol], jcheck: bool) -> CaseResult {
     let mut rng = Rng::new(seed);
     let mut r = Runner::new(scratch.join(id), meta);
+    r.jcheck = jcheck;
     let pol = *rng.pick(pols);
     let cfg = GenCfg { reopen_pols: pols.to_vec(), big_weight: 4 + rng.below(8), max_queues: 1 + rng.below(5) as usize, ..Default::default() };
     r.apply(&Op::Open(pol));
@@ -94,9 +95,10 @@ pub fn case_ops(scratch: &Path, meta: usize, id: &str, seed: u64, len: usize, po
 }
 
 /// replay of a stored case: main-line operations through the checked runner
-pub fn case_replay(scratch: &Path, meta: usize, case: &Case) -> CaseResult {
+pub fn case_replay(scratch: &Path, meta: usize, case: &Case, jcheck: bool) -> CaseResult {
     let id = if case.id.is_empty() { "replay".to_string() } else { case.id.clone() };
     let mut r = Runner::new(scratch.join("replay"), meta);
+    r.jcheck = jcheck;
     for (side, op) in &case.ops {
         if *side {
             continue;
@@ -213,8 +215,9 @@ pub fn run(args: &Args) -> i32 {
 
 pub fn dispatch(scratch: &Path, meta: usize, campaign: &str, id: &str, seed: u64, len: usize) -> CaseResult {
     match campaign {
-        "ops" => case_ops(scratch, meta, id, seed, len, &[Pol::AlwaysFlush]),
-        "policy-ops" => case_ops(scratch, meta, id, seed, len, &ALL_POLS),
+        "ops" => case_ops(scratch, meta, id, seed, len, &[Pol::AlwaysFlush], false),
+        "ops-journal" => case_ops(scratch, meta, id, seed, len, &[Pol::AlwaysFlush], true),
+        "policy-ops" => case_ops(scratch, meta, id, seed, len, &ALL_POLS, false),
         "bytes" => crate::bytes::case_bytes(scratch, meta, id, seed, len, None),
         "fault" => crate::misc::case_fault(scratch, meta, id, seed, len, None),
         "lockstep" => crate::misc::case_lockstep(scratch, meta, id, seed, len, None),
@@ -249,6 +252,6 @@ pub fn dispatch_replay(scratch: &Path, meta: usize, campaign: &str, case: &Case)
         "damage-aimed" => crate::damage::case_damage(scratch, meta, &id, 1, 0, true, Some(case)),
         "crash" => crate::crash::case_crash(scratch, meta, &id, 1, 0, &crash_cfg(false), Some(case)),
         "crash-policies" => crate::crash::case_crash(scratch, meta, &id, 1, 0, &crash_cfg(true), Some(case)),
-        _ => case_replay(scratch, meta, case),
+        _ => case_replay(scratch, meta, case, campaign == "ops-journal"),
     }
 }
